@@ -27,6 +27,11 @@ RepSeq   == << VStr("a,b"), VStr("a b"), VInt(3), VStr("a  b"), VStr("a,,b"), VS
 SplSeq   == << VStr("a b"), VStr("a  b"), VStr("a.b c"), VInt(3), VStr(""), VStr("ab"), None >>
 AwKinds == <<"fut", "coro", "task">>
 Aw(i, kind) == <<"aw", <<i, kind, 0>>>>
+Look(i, kind) == <<"look", <<i, kind>>>>
+\* the realisation kinds beyond futures / coroutines / tasks, interleaved with them: rotating `base`
+\* moves every kind over every position of a shape
+AwKindsX  == <<"obj", "fut", "objnow", "coro", "objfut", "task", "objcoro", "gather", "objobj", "shield", "done", "coronow">>
+LookSeq   == <<"gen", "cls", "afn", "inst", "agen", "attr">>
 Cyc(seq, n) == seq[(n % Len(seq)) + 1]
 LeafOf(menu, base, code) == CASE menu = "int" -> VInt(base + code)
                               [] menu = "unary" -> Cyc(UnarySeq, base + code)
@@ -34,6 +39,11 @@ LeafOf(menu, base, code) == CASE menu = "int" -> VInt(base + code)
                               [] menu = "spl"   -> Cyc(SplSeq, base + code)
                               [] menu = "aw"    -> Aw(base + code, Cyc(AwKinds, base + code))
                               [] menu = "co"    -> Aw(base + code, "coro")
+                              [] menu = "awx"   -> Aw(base + code, Cyc(AwKindsX, base + code))
+                              \* awaitables of the new kinds next to look-alikes and plain leaves
+                              [] menu = "awlook" -> (CASE code % 3 = 1 -> Aw(base + code, Cyc(AwKindsX, base + (code \div 3)))
+                                                      [] code % 3 = 2 -> Look(base + code, Cyc(LookSeq, base + (code \div 3)))
+                                                      [] OTHER -> VInt(base + code))
                               [] menu = "awmix" -> IF code % 2 = 1 THEN Aw(base + code, Cyc(AwKinds, base + code)) ELSE VInt(base + code)
 RECURSIVE Build(_, _, _, _)
 Build(s, menu, base, code) ==
